@@ -89,7 +89,7 @@ func TestVerifC05(t *testing.T) {
 	defer multiboot.SetInfoPtr(0)
 
 	offsets := []uint64{0xffff800000000000, 0xffff800000000000, 0xffffff0000000000, 0x40000000, 0x100000000000, 0xffff900000000000, 0}
-	n := run.N(500, 600000)
+	n := run.N(6000, 600000)
 	run.Cases(n, func(c *vlib.Case) {
 		r := c.R
 		m.reset()
